@@ -49,61 +49,60 @@ def plan(tier, seed, kf_ids, prefix="c12", budget=False):
         # with a budget every loop may run up to budget+1 times before tick() panics
         return (T.budget(alias) + 2) if budget else n
 
-    # ---- 32-bit type: full operand range
+    # ---- 32-bit type: full operand range where the query finishes in minutes
     a = "I9F23"
     jobs.append(T.total1(prefix, "exp", a, a, T.FULL, "all", UW(a, 26), B(a), bounds="all 2^32 operands"))
-    jobs.append(T.trig(prefix, "sin", a, T.FULL, "all", UW(a, 45) if not budget else UW(a, 0), B(a), 200 if not budget else 0))
-    jobs.append(T.trig(prefix, "cos", a, T.FULL, "all", UW(a, 45) if not budget else UW(a, 0), B(a), 200 if not budget else 0))
-    op, n = tan_operand(a)
-    jobs.append(T.trig(prefix, "tan", a, op, "clear_of_poles", UW(a, 45), B(a), 0))
-    for fun, full_in_quick in (("log2", True), ("sqrt", False), ("ln", False)):
-        if full_in_quick or not q:
-            jobs.append(T.total1(prefix, fun, a, a, T.FULL, "all", UW(a, 36), B(a), timeout=3600, bounds="all 2^32 operands"))
-        jobs.append(T.total1(prefix, fun, a, a, T.family(a), "family", UW(a, 36), B(a),
-                             bounds="+-(2^p +- t), max - t, min + t; t < 256, every binade p"))
-    jobs.append(T.total1(prefix, "sqrt", "U9F23", "U9F23", T.family("U9F23"), "family", UW("U9F23", 36), B("U9F23")))
-    # widening destination
+    jobs.append(T.trig(prefix, "sin", a, T.FULL, "all", UW(a, 30), B(a), 200 if not budget else 0))
+    jobs.append(T.trig(prefix, "cos", a, T.FULL, "all", UW(a, 30), B(a), 200 if not budget else 0))
+    jobs.append(T.total1(prefix, "log2", a, a, T.FULL, "all", UW(a, 36), B(a), timeout=2400, bounds="all 2^32 operands"))
+    fam = "+-(2^p +- t), max - t, min + t; t < 256, every binade p"
+    jobs.append(T.total1(prefix, "sqrt", a, a, T.family(a), "family", UW(a, 36), B(a), timeout=2400, bounds=fam))
+    jobs.append(T.total1(prefix, "ln", a, a, T.family(a), "family", UW(a, 36), B(a), timeout=2400, bounds=fam))
     jobs.append(T.total1(prefix, "exp", a, "I32F32", T.FULL, "all", UW("I32F32", 40), B("I32F32"), bounds="all 2^32 operands"))
-    for fun in ("log2", "sqrt"):
-        jobs.append(T.total1(prefix, fun, a, "I32F32", T.family(a), "family", UW("I32F32", 70), B("I32F32")))
-    # ---- 64-bit and 128-bit types: operand families
-    wide = ["I32F32"] if q else ["I32F32", "I16F48", "I64F64"]
+    # tan: quick |x| <= 8, thorough |x| <= 100 (17 min)
+    op, n = tan_operand(a, 8 if q else 100)
+    jobs.append(T.trig(prefix, "tan", a, op, "clear_of_poles_%d" % (8 if q else 100), UW(a, 30), B(a), 0, timeout=3600))
+    if not q:
+        for fun in ("sqrt", "ln"):
+            jobs.append(T.total1(prefix, fun, a, a, T.FULL, "all", UW(a, 36), B(a), timeout=5400, bounds="all 2^32 operands"))
+        jobs.append(T.total1(prefix, "sqrt", "U9F23", "U9F23", T.family("U9F23"), "family", UW("U9F23", 36), B("U9F23"), timeout=3600))
+    # ---- 64-bit types: CORDIC (add/shift) over the full range; exp on the operand family
+    wide = ["I32F32"] if q else ["I32F32", "I16F48"]
     for al in wide:
         w = T.TYPES[al][1]
-        jobs.append(T.total1(prefix, "exp", al, al, T.family(al), "family", UW(al, w + 4), B(al), timeout=3600))
-        for fun in ("log2", "sqrt"):
-            jobs.append(T.total1(prefix, fun, al, al, T.family(al), "family", UW(al, w + 4), B(al), timeout=3600))
-        if not budget:
-            jobs.append(T.trig(prefix, "sin", al, T.FULL, "all", 45, B(al), 200, timeout=3600))
-        else:
-            jobs.append(T.trig(prefix, "sin", al, T.FULL, "all", UW(al, 0), B(al), 0, timeout=3600))
+        jobs.append(T.trig(prefix, "sin", al, T.FULL, "all", UW(al, 30), B(al), 200 if not budget else 0, timeout=3600))
+        if not q or not budget:
+            jobs.append(T.total1(prefix, "exp", al, al, T.family(al), "family", UW(al, w + 4), B(al), timeout=3600, bounds=fam))
+    if not q:
+        for al in ("I64F64", "I40F88"):
+            jobs.append(T.trig(prefix, "sin", al, T.FULL, "all", UW(al, 30), B(al), 200 if not budget else 0, timeout=5400))
     if not budget:
         # pow / powi
-        inner = "i32"
-        x = T.family(a)
-        y = T.family(a)
         name = "%s_pow_i9f23_family" % prefix
-        jobs.append(Job(name, "tr_total_pow!(%s, 40, I9F23, I9F23, i32, %s, %s, %s);" % (name, x, y, T.BIG),
+        jobs.append(Job(name, "tr_total_pow!(%s, 40, I9F23, I9F23, i32, %s, %s, %s);" % (name, T.family(a), T.family(a), T.BIG),
                         "pow::<I9F23,I9F23>(x, y) for x and y in the operand family: Ok or Err without panic; negative base "
                         "with an exponent other than 0, 1 yields Err", timeout=3600, inst="pow I9F23", bounds="family x family"))
-        for nexpr, nname, unw in (("{ let n: i32 = kani::any(); kani::assume(n >= -6 && n <= 6); n }", "small", 9),
-                                  ("i32::MIN", "min", 3), ("i32::MAX", "max", 3)):
+        big = "{ let b: i32 = kani::any(); kani::assume(b >= (2 << 23) || b <= -(2 << 23)); b }"
+        for nexpr, nname, xop, unw, xdesc in (
+                ("{ let n: i32 = kani::any(); kani::assume(n >= -6 && n <= 6); n }", "small", T.FULL, 9, "all x"),
+                ("{ let n: i32 = kani::any(); kani::assume(n <= i32::MIN + 2 || n >= i32::MAX - 2); n }", "extreme", big, 12,
+                 "|x| >= 2 (the product overflows within 8 steps)")):
             name = "%s_powi_i9f23_%s" % (prefix, nname)
-            xop = T.FULL if nname == "small" else "{ let b: i32 = kani::any(); kani::assume(b == 0 || b == (1 << 23) || b == -(1 << 23)); b }"
             jobs.append(Job(name, "tr_total_powi!(%s, %d, I9F23, I9F23, i32, %s, %s);" % (name, unw, xop, nexpr),
-                            "powi::<I9F23,I9F23>(x, n) with n %s: Ok or Err without panic" % nname, timeout=1800,
-                            inst="powi I9F23", bounds="n %s" % nname))
+                            "powi::<I9F23,I9F23>(x, n), n %s, %s: Ok or Err without panic" % (nname, xdesc), timeout=1800,
+                            inst="powi I9F23", bounds="n %s; %s" % (nname, xdesc)))
     return {
         "feature": prefix,
         "jobs": jobs,
         "functions": ["transcendental.rs: sqrt, log2 (log2_inner, rs), ln, exp, pow, powi, sin, cos, tan (cordic_rotation)",
                       "everything they call: checked_mul/div, From/LossyFrom, comparisons with I9F23 constants"],
-        "bounds": "I9F23: every operand for exp, log2, sin, cos (|x|<=200), tan (|x|<=100 clear of poles by atan(1/64)*1.02); "
-                  "sqrt/ln full range in the thorough tier; operand families (+-(2^p+-t), max-t, min+t, t<256) for sqrt, ln, "
-                  "log2 and for the 64/128-bit types; pow on family x family; powi for |n|<=6 (all x) and n = i32::MIN/MAX "
-                  "on x in {0, 1, -1}",
-        "outside": ["operands outside the families for the 64/128-bit types and for sqrt/ln/pow", "powi exponents with 6 < |n| < 2^31 - 1",
-                    "type pairs not instantiated (I40F88, I96F32, unsigned wide types)"],
+        "bounds": "I9F23: every operand for exp (also into I32F32), log2, sin, cos (|x|<=200), tan (|x|<=8 quick / 100 thorough, clear "
+                  "of poles by atan(1/64)*1.02); sqrt/ln on the operand family (+-(2^p+-t), max-t, min+t, t<256) and full range in "
+                  "the thorough tier; I32F32 (and I16F48, I64F64, I40F88 thorough): sin over |x|<=200, exp on the family; pow on "
+                  "family x family; powi for |n|<=6 (all x) and n within 2 of i32::MIN/MAX on |x|>=2",
+        "outside": ["sqrt/log2/ln/pow on 64/128-bit types: 32+ dependent 128-bit multiplications/divisions exhaust memory in the "
+                    "bit-blasting back end (probe: out of memory at 12 GB)", "powi exponents with 6 < |n| < 2^31 - 3, and |x| < 2 "
+                    "for extreme exponents (2^31 iterations)", "type pairs not instantiated (I96F32, unsigned wide types)"],
         "assumptions": ["Kani models the checking profile (debug assertions and overflow checks on): absence of a failing check "
                         "there implies absence of a panic in the non-checking profile for the same operands (C11 argument)"],
         "stubs": [],
